@@ -166,7 +166,7 @@ class TaskCoordinator:
             dynamic_ncols=True,
         )
 
-    def handle_failure(self, *, ex: Exception, message: str):
+    def handle_failure(self, *, ex: BaseException, message: str):
         # Simplify subprocess error tracebacks by reporting the cause directly.
         if isinstance(ex.__cause__, concurrent.futures.process._RemoteTraceback):
             ex = ex.__cause__
@@ -221,7 +221,9 @@ class TaskCoordinator:
             # Wait up to a short delay before allowing the
             # task monitor to update.
             for task, res in runner.wait(timeout_seconds=0.5):
-                if isinstance(res, Exception):
+                if isinstance(res, BaseException):
+                    # (Runners report any BaseException raised by a task,
+                    # e.g. SystemExit from a task that calls sys.exit().)
                     tasks_with_removable_results = state.complete_task(task, result_meta=None)
                     self.handle_failure(ex=res, message=f"Task '{task}' failed.")
                 elif isinstance(res, ResultMeta):
